@@ -10,8 +10,8 @@ CONSTANTS MinPower = 2
           NonMiners = {"acct"}
           Period = 1
           MaxEpoch = 1
-          MaxRaw = 3
-          MaxQa = 4
+          MaxRaw = 2
+          MaxQa = 3
           MaxPledge = 1
           MaxQueue = 2
           ExportLen = 0
